@@ -259,12 +259,58 @@ T *baseOf(const std::move_iterator<T *> &i) {
   return i.base();
 }
 
+/// random-access iterator that walks an array BACKWARDS (like std::reverse_iterator<T*>): random access but not contiguous in increasing
+/// address order, so a memcpy/memmove of `n * sizeof(T)` bytes starting at `&*first` is wrong for it. `gBase`/`gCnt` describe the array the
+/// current case runs on, so that a physical pointer can be mapped to the logical position and back.
+template <class T>
+struct RevRaIt {
+  typedef std::random_access_iterator_tag iterator_category;
+  typedef typename std::remove_cv<T>::type value_type;
+  typedef std::ptrdiff_t difference_type;
+  typedef T *pointer;
+  typedef T &reference;
+  static T *gBase;
+  static int gCnt;
+  T *p;
+  RevRaIt() : p(nullptr) {}
+  explicit RevRaIt(T *q) : p(q) {}
+  reference operator*() const { return *p; }
+  pointer operator->() const { return p; }
+  reference operator[](difference_type d) const { return *(p - d); }
+  RevRaIt &operator++() { --p; return *this; }
+  RevRaIt operator++(int) { RevRaIt t(*this); --p; return t; }
+  RevRaIt &operator--() { ++p; return *this; }
+  RevRaIt operator--(int) { RevRaIt t(*this); ++p; return t; }
+  RevRaIt &operator+=(difference_type d) { p -= d; return *this; }
+  RevRaIt &operator-=(difference_type d) { p += d; return *this; }
+  friend RevRaIt operator+(RevRaIt a, difference_type d) { return RevRaIt(a.p - d); }
+  friend RevRaIt operator+(difference_type d, RevRaIt a) { return RevRaIt(a.p - d); }
+  friend RevRaIt operator-(RevRaIt a, difference_type d) { return RevRaIt(a.p + d); }
+  friend difference_type operator-(const RevRaIt &a, const RevRaIt &b) { return b.p - a.p; }
+  bool operator==(const RevRaIt &o) const { return p == o.p; }
+  bool operator!=(const RevRaIt &o) const { return p != o.p; }
+  bool operator<(const RevRaIt &o) const { return p > o.p; }
+  bool operator>(const RevRaIt &o) const { return p < o.p; }
+  bool operator<=(const RevRaIt &o) const { return p >= o.p; }
+  bool operator>=(const RevRaIt &o) const { return p <= o.p; }
+};
+template <class T>
+T *RevRaIt<T>::gBase = nullptr;
+template <class T>
+int RevRaIt<T>::gCnt = 0;
+/// logical position of a reverse iterator, as a pointer into the array seen in forward order
+template <class T>
+T *baseOf(const RevRaIt<T> &i) {
+  return RevRaIt<T>::gBase + ((RevRaIt<T>::gCnt - 1) - (i.p - RevRaIt<T>::gBase));
+}
+
 struct KPtr {
   static const char *name() { return "ptr"; }
   template <class T>
   struct it {
     typedef T *src_t;
     typedef T *dst_t;
+    static void prepare(T *, int) {}
     static src_t src(T *p) { return p; }
     static dst_t dst(T *p) { return p; }
   };
@@ -275,6 +321,7 @@ struct KRa {
   struct it {
     typedef RaIt<T> src_t;
     typedef RaIt<T> dst_t;
+    static void prepare(T *, int) {}
     static src_t src(T *p) { return src_t(p); }
     static dst_t dst(T *p) { return dst_t(p); }
   };
@@ -285,6 +332,7 @@ struct KBidi {
   struct it {
     typedef BidiIt<T> src_t;
     typedef BidiIt<T> dst_t;
+    static void prepare(T *, int) {}
     static src_t src(T *p) { return src_t(p); }
     static dst_t dst(T *p) { return dst_t(p); }
   };
@@ -295,6 +343,7 @@ struct KFwd {
   struct it {
     typedef FwdIt<T> src_t;
     typedef FwdIt<T> dst_t;
+    static void prepare(T *, int) {}
     static src_t src(T *p) { return src_t(p); }
     static dst_t dst(T *p) { return dst_t(p); }
   };
@@ -306,7 +355,24 @@ struct KMv {
   struct it {
     typedef std::move_iterator<T *> src_t;
     typedef T *dst_t;
+    static void prepare(T *, int) {}
     static src_t src(T *p) { return src_t(p); }
+    static dst_t dst(T *p) { return p; }
+  };
+};
+/// reverse random-access iterator as the source (the logical sequence is the array read backwards), a pointer as the destination
+struct KRra {
+  static const char *name() { return "rra"; }
+  template <class T>
+  struct it {
+    typedef RevRaIt<T> src_t;
+    typedef T *dst_t;
+    static void prepare(T *s, int n) {
+      RevRaIt<T>::gBase = s;
+      RevRaIt<T>::gCnt = n;
+    }
+    /// physical pointer s + j  ->  the iterator at logical position j
+    static src_t src(T *p) { return src_t(RevRaIt<T>::gBase + (RevRaIt<T>::gCnt - 1) - (p - RevRaIt<T>::gBase)); }
     static dst_t dst(T *p) { return p; }
   };
 };
@@ -510,7 +576,8 @@ inline std::string adv2(std::ptrdiff_t a, std::ptrdiff_t b) { return std::to_str
     static std::string call(T *s, T *d, int n) {  \
       (void)s;                                    \
       (void)d;                                    \
-      (void)n;
+      (void)n;                                    \
+      I::prepare(s, n);
 #define ALG_END \
   }            \
   }            \
@@ -735,6 +802,10 @@ void runType(int maxN) {
   runTwoRange<KBidi, T>(maxN);
   runTwoRange<KFwd, T>(maxN);
   runTwoRange<KMv, T>(maxN);
+  // reverse random-access source: random access but not contiguous (an implementation may not memcpy/memmove it)
+  runTwoRange<KRra, T>(maxN);
+  runAlg<ureloc, KRra, T>(maxN, false);
+  runAlg<ureloc_n, KRra, T>(maxN, false);
   runOneRange<KPtr, T>(maxN);
   runOneRange<KRa, T>(maxN);
   runOneRange<KBidi, T>(maxN);
